@@ -39,6 +39,7 @@ type PropSpec struct {
 	Rule        string
 	Race        bool                            // replay natively under -race
 	Lazy        bool                            // fork on symbolic branches without feasibility queries
+	Eager       map[string]bool                 // entries explored with feasibility queries although Lazy is set
 	WallBudget  func(tier string) time.Duration // stop starting new units after this (reported as reduced bound)
 }
 
@@ -149,6 +150,8 @@ func runUnits(sh *Shared, spec *PropSpec, units []Unit, solverKind string, timeo
 	var stack []workItem
 	nextUnit := 0
 	inflight := 0
+	var firstFailure time.Time
+	cutAfterCex = 0
 	for w := 0; w < *flagWorkers; w++ {
 		wg.Add(1)
 		go func(w int) {
@@ -166,6 +169,13 @@ func runUnits(sh *Shared, spec *PropSpec, units []Unit, solverKind string, timeo
 				mu.Lock()
 				var it workItem
 				got := false
+				if !firstFailure.IsZero() && time.Since(firstFailure) > cexGrace && (len(stack) > 0 || nextUnit < len(units)) {
+					// a counterexample candidate exists: what is still queued after the grace period is not
+					// explored (a change that breaks the property can also make the remaining paths very slow)
+					cutAfterCex += len(stack) + len(units) - nextUnit
+					stack = nil
+					nextUnit = len(units)
+				}
 				for !got {
 					if n := len(stack); n > 0 {
 						it = stack[n-1]
@@ -211,6 +221,7 @@ func runUnits(sh *Shared, spec *PropSpec, units []Unit, solverKind string, timeo
 
 				m.wantWitness = pathNo == 0 || pathNo%7 == 3
 				u := units[it.unit]
+				m.lazy = spec.Lazy && !spec.Eager[u.Entry]
 				res := m.RunPath(sh.entry(u.Entry), []value{strSlice(u.Args)}, it.prefix, maxSteps)
 
 				mu.Lock()
@@ -219,6 +230,9 @@ func runUnits(sh *Shared, spec *PropSpec, units []Unit, solverKind string, timeo
 					stack = append(stack, workItem{unit: it.unit, prefix: p})
 				}
 				recordPath(r, m, res)
+				if len(res.Failures) > 0 && firstFailure.IsZero() {
+					firstFailure = time.Now()
+				}
 				cond.Broadcast()
 				mu.Unlock()
 			}
@@ -237,6 +251,12 @@ func runUnits(sh *Shared, spec *PropSpec, units []Unit, solverKind string, timeo
 
 	return
 }
+
+// cexGrace: how long exploration continues after the first counterexample candidate of a run.
+const cexGrace = 150 * time.Second
+
+// cutAfterCex: work items dropped by the last runUnits call because of cexGrace.
+var cutAfterCex int
 
 func runCheck(prop, tier string) int {
 	start := time.Now()
@@ -358,6 +378,7 @@ func runCheck(prop, tier string) int {
 	}
 
 	results, solverStats, funcSteps, stubs, skippedUnits := runUnits(sh, spec, units, solverKind, timeoutMs, maxSteps, maxPaths, deadline)
+	cutItems := cutAfterCex
 
 	// thorough: a sample of units is re-run on a second solver; the verdicts must agree
 	secondSolver, secondUnits, secondDisagree := "", 0, []string{}
@@ -595,6 +616,9 @@ func runCheck(prop, tier string) int {
 	bounds["units_planned"] = len(units)
 	bounds["units_explored"] = exploredUnits
 	bounds["units_skipped_wall_budget"] = skippedUnits
+	if cutItems > 0 {
+		bounds["work_items_not_explored_after_first_counterexample"] = cutItems
+	}
 	if len(sh.degraded) > 0 {
 		bounds["degraded_harness_files"] = sh.degraded
 		bounds["units_not_run_missing_entry"] = unitsDropped
@@ -624,6 +648,10 @@ func runCheck(prop, tier string) int {
 			inconclusive = true
 			inconclusiveWhy = append(inconclusiveWhy, fmt.Sprintf("the encoder cannot execute the code on %d paths: %s", n, clip(why, 200)))
 		}
+	}
+	if cutItems > 0 && violations == 0 {
+		inconclusive = true
+		inconclusiveWhy = append(inconclusiveWhy, fmt.Sprintf("exploration was cut short after a counterexample candidate that did not reproduce natively (%d work items not explored)", cutItems))
 	}
 	if len(secondDisagree) > 0 {
 		inconclusive = true
